@@ -14,6 +14,7 @@ import (
 	"bytes"
 	"flag"
 	"fmt"
+	"math/big"
 
 	"github.com/canopy-network/canopy/fsm"
 	"github.com/canopy-network/canopy/lib"
@@ -363,7 +364,7 @@ func chainMode(r *sim.Rng, nBlocks int, cw *sim.CaseWriter) {
 			continue
 		}
 		src := pool[r.Intn(len(pool))]
-		switch r.Intn(5) {
+		switch r.Intn(6) {
 		case 0:
 			if offer(n, executed, src, "identical-bytes", 1) {
 				executed = append(executed, src)
@@ -382,6 +383,26 @@ func chainMode(r *sim.Rng, nBlocks int, cw *sim.CaseWriter) {
 				t.Signature.PublicKey = append([]byte{4}, t.Signature.PublicKey...)
 				v, _ := lib.Marshal(t)
 				if offer(n, executed, v, "variant:eth-key-with-prefix", 1) {
+					executed = append(executed, v)
+				}
+			}
+		case 4:
+			// a signature altered by a third party: a byte appended, or (secp256k1, 64 bytes R||S) S replaced by N-S
+			t := new(lib.Transaction)
+			if lib.Unmarshal(src, t) == nil && t.Signature != nil {
+				sig := append([]byte{}, t.Signature.Signature...)
+				how := "variant:signature-byte-appended"
+				if len(sig) == 64 && r.Bool() {
+					order, _ := new(big.Int).SetString("fffffffffffffffffffffffffffffffebaaedce6af48a03bbfd25e8cd0364141", 16)
+					sNew := new(big.Int).Sub(order, new(big.Int).SetBytes(sig[32:]))
+					copy(sig[32:], sNew.FillBytes(make([]byte, 32)))
+					how = "variant:signature-high-s"
+				} else {
+					sig = append(sig, byte(r.Intn(256)))
+				}
+				t.Signature.Signature = sig
+				v, _ := lib.Marshal(t)
+				if offer(n, executed, v, how, 1) {
 					executed = append(executed, v)
 				}
 			}
